@@ -14,9 +14,12 @@ import (
 
 	"github.com/wokdav/gopki/generator/cert"
 
+	"github.com/wokdav/gopki/generator/db/filesystem"
+
 	"verif/mc/engine"
 	"verif/mc/refder"
 	"verif/mc/refx509"
+	"verif/mc/simfs"
 )
 
 // C17 — private keys survive PKCS#8/PEM write and read, and interoperate.
@@ -31,6 +34,7 @@ type c17Case struct {
 	Blocks string `json:"blocks,omitempty"` // order string over c,k,r e.g. "kc"
 	Hash   bool   `json:"hash,omitempty"`
 	KeyFix string `json:"keyFix,omitempty"`
+	Layout string `json:"layout,omitempty"` // "" = hash line first, read by cert.ReadPem; else a file layout read through the directory import
 	// reject
 	Reject string `json:"reject,omitempty"`
 	Prefix int    `json:"prefix,omitempty"`
@@ -84,6 +88,20 @@ func c17Enumerate(tier string, yield func(any)) {
 		for _, h := range []bool{false, true} {
 			for _, kf := range []string{"P-256-0", "RSA-2048-0", "brainpoolP384r1-0", "P-521-0"} {
 				yield(&c17Case{Kind: "file", Blocks: o, Hash: h, KeyFix: kf})
+			}
+			if o == "" {
+				continue
+			}
+			// the same file as an entity's artifact, read by opening the directory: hash line in every position, blank line at the end
+			ls := []string{"first", "trailing-blank-line"}
+			if h {
+				ls = append(ls, "hash-last")
+				if len(o) > 1 {
+					ls = append(ls, "hash-after-first-block")
+				}
+			}
+			for _, l := range ls {
+				yield(&c17Case{Kind: "file", Blocks: o, Hash: h, KeyFix: "P-256-0", Layout: l})
 			}
 		}
 	}
@@ -345,10 +363,14 @@ func c17File(x *engine.Ctx, c *c17Case) {
 		return
 	}
 	var file []byte
-	if c.Hash {
-		file = append(file, []byte("#HASH:2jmj7l5rSw0yVb/vlWAYkK/YBwk=\n")...)
+	hashLine := []byte("#HASH:2jmj7l5rSw0yVb/vlWAYkK/YBwk=\n")
+	if c.Hash && (c.Layout == "" || c.Layout == "first" || c.Layout == "trailing-blank-line") {
+		file = append(file, hashLine...)
 	}
-	for _, b := range c.Blocks {
+	for i, b := range c.Blocks {
+		if i == 1 && c.Hash && c.Layout == "hash-after-first-block" {
+			file = append(file, hashLine...)
+		}
 		switch b {
 		case 'c':
 			file = append(file, refx509.EncodePem("CERTIFICATE", certDER)...)
@@ -358,9 +380,46 @@ func c17File(x *engine.Ctx, c *c17Case) {
 			file = append(file, refx509.EncodePem("CERTIFICATE REQUEST", reqDER)...)
 		}
 	}
-	x.Nontrivial(fmt.Sprintf("file %q %v %s", c.Blocks, c.Hash, c.KeyFix))
+	if c.Hash && c.Layout == "hash-last" {
+		file = append(file, hashLine...)
+	}
+	if c.Layout == "trailing-blank-line" {
+		file = append(file, '\n')
+	}
+	x.Nontrivial(fmt.Sprintf("file %q %v %s %s", c.Blocks, c.Hash, c.KeyFix, c.Layout))
 	feat := fmt.Sprintf("blocks=%s hash=%v", sortBlocks(c.Blocks), c.Hash)
-	pf, err := cert.ReadPem(file)
+	if c.Layout != "" {
+		feat += " layout=" + c.Layout
+	}
+	var pf cert.PemFileContent
+	if c.Layout != "" {
+		// through the directory import, as a run reads an entity's artifact
+		w := simfs.New(simfs.TickPerWrite)
+		w.Put("ent.yaml", []byte("version: 1\nsubject: CN=file test\n"))
+		w.Put("ent.pem", file)
+		fsdb := filesystem.NewFilesystemDatabase(w)
+		if err := fsdb.Open(); err != nil {
+			x.Violation("C17/file/open-error "+feat, err.Error())
+			return
+		}
+		defer fsdb.Close()
+		a, err := fsdb.GetBuildArtifact("ent")
+		if err != nil || a == nil {
+			x.Violation("C17/file/no-artifact "+feat, fmt.Sprint(err))
+			return
+		}
+		meta, _ := fsdb.GetMetadata("ent")
+		if c.Hash && (meta == nil || fmt.Sprintf("%x", meta.LastConfigHash) != "da39a3ee5e6b4b0d3255bfef95601890afd80709") {
+			x.Violation("C17/file/hash-line-not-read "+feat, fmt.Sprintf("metadata %+v", meta))
+		}
+		pf.Certificate, pf.PrivateKey, pf.Request = a.Certificate, a.PrivateKey, a.Request
+		if pf.PrivateKey != nil && pf.Request == nil && strings.Contains(c.Blocks, "r") {
+			// the directory import keeps a request only for an entity without key (C14)
+			c = &c17Case{Kind: c.Kind, Blocks: strings.ReplaceAll(c.Blocks, "r", ""), Hash: c.Hash, KeyFix: c.KeyFix, Layout: c.Layout}
+		}
+	} else {
+		pf, err = cert.ReadPem(file)
+	}
 	if err != nil && c.Blocks == "" {
 		// a file holding nothing but the hash line: the statement speaks of the objects
 		// read back (none here); whether the leftover text is reported is not demanded
@@ -536,7 +595,7 @@ func init() {
 	register(&engine.Check{
 		ID:          "C17",
 		Level:       "exploration",
-		Rule:        "10 curves x boundary scalars (1,2,3,n-1,n-2,n/2, the largest and smallest value of every octet length 1..len-1, i.e. every number of leading zero octets, 8 mid-range; 70..150 per curve) through cert.WritePrivateKeyToPem -> cert.ReadPem, the reference PKCS#8 decoder, crypto/x509 in both directions (NIST) , 8 reference-built PKCS#8 layouts (curve OID outer / inner / both, with and without embedded public key, compressed public point) and the minimal-length (leading zeros stripped) encodings; 10 RSA fixture keys 1024..4096; artifact files for all 16 block orders over {cert,key,request} x hash line x 4 key types; rejection inputs: scalar n, n+1, 2^(8len)-1, unknown/missing curve, ECPrivateKey version 0/2, swapped RSA/EC bodies, unknown algorithm, every strict prefix of a valid EC key per curve and of an RSA key, PEM around non-DER. non-trivial = distinct case that reached a comparison",
+		Rule:        "10 curves x boundary scalars (1,2,3,n-1,n-2,n/2, the largest and smallest value of every octet length 1..len-1, i.e. every number of leading zero octets, 8 mid-range; 70..150 per curve) through cert.WritePrivateKeyToPem -> cert.ReadPem, the reference PKCS#8 decoder, crypto/x509 in both directions (NIST) , 8 reference-built PKCS#8 layouts (curve OID outer / inner / both, with and without embedded public key, compressed public point) and the minimal-length (leading zeros stripped) encodings; 10 RSA fixture keys 1024..4096; artifact files for all 16 block orders over {cert,key,request} x hash line x 4 key types through cert.ReadPem, and the 15 non-empty orders as an entity's artifact read by opening the directory with the hash line first / after the first block / last and with a blank line at the end; rejection inputs: scalar n, n+1, 2^(8len)-1, unknown/missing curve, ECPrivateKey version 0/2, swapped RSA/EC bodies, unknown algorithm, every strict prefix of a valid EC key per curve and of an RSA key, PEM around non-DER. non-trivial = distinct case that reached a comparison",
 		Bound:       map[string]string{"scalars": "boundary values only (any valid scalar is unbounded)", "rsa": "fixture keys 1024,1536,2048,3072,4096 (two each)"},
 		Assumptions: []string{"outer PKCS#8 version, scalar 0 and trailing bytes after a complete DER value are not in the rejection alphabet (neither gopki nor the standard library rejects them)", "crypto/x509 is the 'standard library parser' of the statement"},
 		Budget:      budgets(quickBudget, thoroughBudget),
